@@ -5231,6 +5231,13 @@ class TLSConnection(TLSRecordLayer):
                                              "ChangeCipherSpec type incorrect"):
                     yield result
 
+        # a handshake message must not span the key change
+        if self._defragmenter.buffers[ContentType.handshake]:
+            for result in self._sendError(
+                    AlertDescription.unexpected_message,
+                    "ChangeCipherSpec inside a fragmented handshake message"):
+                yield result
+
         # Switch to pending read state
         self._changeReadState()
 
